@@ -1,5 +1,6 @@
-(* C20: ntske.hasBit / setBit as translated from the current source against the way ST.Model.Ntske
-   reads and writes the critical bit: critical := 32768 <=? ty (rd_step), ty := t + 32768 (hdr). *)
+(* C20: ntske.hasBit / setBit as translated from the current source against the model's
+   definitions of the critical bit in ST.Model.Ntske: has_critical (used by rd_step, the loop
+   body of ReadData) and set_critical (used by hdr, the record header of the server message). *)
 From Coq Require Import ZArith Bool List Lia.
 From ST Require Import Base.Ints Model.Ntske GenLib.GoSem GenLib.GoSemBridge.
 From STGen Require Import Gen.
@@ -15,9 +16,9 @@ Qed.
 
 (* the record type is a uint16 *)
 Lemma gen_ntske_hasBit_eq : forall ty, 0 <= ty < 65536 ->
-  Gen.ntske_hasBit ty 15 = (32768 <=? ty).
+  Gen.ntske_hasBit ty 15 = has_critical ty.
 Proof.
-  intros ty H. unfold Gen.ntske_hasBit. cbv zeta.
+  intros ty H. unfold Gen.ntske_hasBit, has_critical. cbv zeta.
   change (shl_u16 1 15) with (2 ^ 15). rewrite land_pow2 by lia.
   destruct (Z.testbit ty 15) eqn:E.
   - apply Z.testbit_true in E; [|lia]. change (2 ^ 15) with 32768 in *.
@@ -29,11 +30,26 @@ Proof.
 Qed.
 Print Assumptions gen_ntske_hasBit_eq.
 
-(* the model writes a critical record type t (t < 2^15) as t + 32768 *)
-Lemma gen_ntske_setBit_eq : forall t, 0 <= t < 32768 -> Gen.ntske_setBit t 15 = t + 32768.
+(* the model writes a critical record type t (t < 2^15) as set_critical t *)
+Lemma gen_ntske_setBit_eq : forall t, 0 <= t < 32768 -> Gen.ntske_setBit t 15 = set_critical t.
 Proof.
-  intros t H. unfold Gen.ntske_setBit. cbv zeta. change (shl_u16 1 15) with 32768.
+  intros t H. unfold Gen.ntske_setBit, set_critical. cbv zeta. change (shl_u16 1 15) with 32768.
   rewrite Z.lor_comm. rewrite (lor_disjoint_add 32768 t 15); [lia|lia|reflexivity|].
   change (2 ^ 15) with 32768. lia.
 Qed.
 Print Assumptions gen_ntske_setBit_eq.
+
+(* the two places of the model where the functions are used, with the translated functions in
+   place of the model's: the header the server writes, and what the record loop makes of a type *)
+Lemma gen_hdr_uses_setBit : forall t c len, 0 <= t < 32768 ->
+  hdr t c len = let ty := if c then Gen.ntske_setBit t 15 else t in
+                [ty / 256; ty mod 256; (Z.of_nat len mod 65536) / 256; Z.of_nat len mod 256].
+Proof. intros t c len H. unfold hdr. rewrite (gen_ntske_setBit_eq t H). reflexivity. Qed.
+Print Assumptions gen_hdr_uses_setBit.
+
+Lemma gen_rd_step_critical : forall a b, 0 <= a < 256 -> 0 <= b < 256 ->
+  has_critical (be16 [a; b]) = Gen.ntske_hasBit (be16 [a; b]) 15.
+Proof.
+  intros a b Ha Hb. symmetry. apply gen_ntske_hasBit_eq. unfold be16. cbn [nth]. lia.
+Qed.
+Print Assumptions gen_rd_step_critical.
